@@ -29,6 +29,8 @@ def so3_param(rep, q):
     if rep == "dcm":
         return R.flatten(order="F")
     if rep == "euler":        # B321: R = Rz(psi) Ry(theta) Rx(phi)
+        if abs(R[2, 0]) >= 1.0 - 1e-12:     # exact gimbal pole: the representative with phi = 0
+            return np.array([math.atan2(-R[0, 1], R[1, 1]), math.copysign(math.pi / 2, -R[2, 0]), 0.0])
         return np.array([math.atan2(R[1, 0], R[0, 0]), math.asin(max(-1.0, min(1.0, -R[2, 0]))),
                          math.atan2(R[2, 1], R[2, 2])])
     raise ValueError(rep)
